@@ -10,7 +10,7 @@ cp $out/patch.diff $out/demo.diff $dst/ 2>/dev/null
 cp $out/meta.json $dst/meta.agent.json 2>/dev/null
 log=$dst/confirm.log; : > $log
 cd $wt || exit 1
-git checkout -q -- . ; git clean -fdq -e target
+git reset -q; git checkout -q -- . ; git clean -fdq -e target
 echo "== apply patch" >> $log
 git apply $dst/patch.diff >> $log 2>&1 || { echo "PATCH DOES NOT APPLY" >> $log; exit 1; }
 echo "== existing suite with patch" >> $log
@@ -31,5 +31,5 @@ echo "== demo without patch" >> $log
 git apply -R $dst/patch.diff >> $log 2>&1
 timeout 900 bash -c "$demo_cmd" > $dst/demo_without_patch.txt 2>&1; echo "demo_exit_without_patch=$?" >> $log
 tail -5 $dst/demo_without_patch.txt >> $log
-git checkout -q -- . ; git clean -fdq -e target
+git reset -q; git checkout -q -- . ; git clean -fdq -e target
 echo "== done" >> $log
